@@ -33,6 +33,8 @@ def gen_cases(tier, seed):
                              "vlow": [0x00, 0x0A, 0x20, 0x30, 0x78, 0x0D, 0x01][i % 7], "lhigh": [0x0A, 0x0D, 0x20, 0x00, 0x30, 0x01][i % 6]}
     for i in range(40 if q else 600):
         yield "cli_build", {"seed": rng.getrandbits(48), "segwit": i % 2 == 0}
+    for i in range(6 if q else 60):
+        yield "arg_forms", {"seed": rng.getrandbits(48), "segwit": i % 2 == 0}
     step = 4096
     for lo in range(0, 2 ** 16 + 3, step):
         yield "cs_range", {"lo": lo, "hi": min(2 ** 16 + 3, lo + step)}
@@ -62,6 +64,19 @@ def exhaustive(tier, counts):
 def run_case(kind, params, ctx):
     import bits
     import bits.tx as btx
+    if kind == "arg_forms":
+        from .common import arg_forms
+        rng = rng_for("C05af", params["seed"])
+        t = txgen.gen_tx(rng, "normal", params["segwit"])
+        raw = txref.ser_tx(t)
+        arg_forms(ctx, "tx_deser", btx.tx_deser, [raw + b"\xaa\xbb"], prop_exc=(ContractViolation,))
+        arg_forms(ctx, "parse_compact_size_uint", bits.utils.parse_compact_size_uint, [rcs.encode(rng.choice([0, 252, 253, 65535, 65536, 2 ** 32, 2 ** 64 - 1])) + b"tail"], prop_exc=(ContractViolation,))
+        i0, o0 = t["vin"][0], t["vout"][0]
+        arg_forms(ctx, "txin", lambda op, sc, sq: btx.txin(op, sc, sequence=sq), [bytes.fromhex(i0["txid"]) + i0["vout"].to_bytes(4, "little"), bytes.fromhex(i0["script"]), i0["sequence"].to_bytes(4, "little")], prop_exc=(ContractViolation,))
+        arg_forms(ctx, "txout", lambda sc: btx.txout(o0["value"], sc), [bytes.fromhex(o0["script"])], prop_exc=(ContractViolation,))
+        arg_forms(ctx, "tx", lambda a, b: btx.tx([a], [b], version=2, locktime=7), [txref.ser_vin(i0), txref.ser_vout(o0)], prop_exc=(ContractViolation,))
+        ctx.nontrivial()
+        return
     if kind == "cli_decode":
         from . import clihelp
         rng = rng_for("C05cli", params["seed"])
